@@ -135,7 +135,10 @@ LIN_CLAUSES = ['cg', 'cgn', 'landweber', 'kaczmarz', 'steepest', 'power',
 # reach 1e-2 was 1043 (admm, strong, mid; next 1019, 964, 909), i.e. a margin
 # of 15 against 4 K_CAP = 16000.  The 1e-4 column has heavy tails (sublinear
 # phases of the primal-dual methods), which is why the asserted accuracy is
-# two orders weaker.
+# two orders weaker.  Accelerated pdhg (gamma_primal / gamma_dual, rows
+# 'pdhg+primal' / 'pdhg+dual') uses the default (K_CAP, RHO): measured
+# directly at 1e-2 over 570 problems it needs at most 794 iterations
+# (pdhg+primal, strong, mid; pdhg+dual at most 130).
 MEASURED = {
     ('accel', 'strong', 'lo'): 183, ('accel', 'strong', 'mid'): 462,
     ('admm', 'eqcon', 'lo'): 636,
@@ -291,6 +294,15 @@ def _ns_case_st(draw, solver, clause):
         families.append('kl') if solver not in ('proxgrad', 'accel') \
             else None
     family = draw(st.sampled_from(families))
+    # accelerated pdhg: gamma_primal needs f strongly convex (the mapping
+    # with f = 1/2||x - b||^2, modulus 1), gamma_dual needs g^* strongly
+    # convex (all terms smooth: the data term, lam||. - b||^2 with modulus
+    # 1/(2 lam), lam Huber_gamma with modulus gamma/lam)
+    accel = 'none'
+    if solver == 'pdhg' and family != 'eqcon':
+        accel = draw(st.sampled_from(['none', 'none', 'primal', 'dual']))
+        if accel == 'dual':
+            family = 'strong'
     zero_cert = clause == 'fixed' and solver in ('fb', 'dr', 'admm')
     nullspace = clause == 'fixed' and solver in ('dr', 'admm')
     if zero_cert and family != 'strong':
@@ -356,8 +368,10 @@ def _ns_case_st(draw, solver, clause):
                                               ('zero', 'box'),
                                               sepsum=False)),
                  terms=terms)
+        if accel == 'primal':
+            p['phi'] = {'kind': 'zero'}
         case['map'] = 'quadf' if p['phi']['kind'] == 'zero' and \
-            draw(st.booleans()) else 'datag'
+            (accel == 'primal' or draw(st.booleans())) else 'datag'
     else:
         kinds = ('tensor', 'tensor', 'discr', 'pspace')
         sd = draw(_domain_st(kinds=kinds))
@@ -369,7 +383,8 @@ def _ns_case_st(draw, solver, clause):
             nterms = max(nterms, 1)
         terms = []
         for _ in range(nterms):
-            tk = ('l2sq', 'huber') if smooth_only else TERM_KINDS
+            tk = ('l2sq', 'huber') if (smooth_only or accel == 'dual') \
+                else TERM_KINDS
             if zero_cert and not nullspace:
                 # kinked terms need L x* = 0: give them a kernel
                 want_null = draw(st.booleans())
@@ -385,11 +400,15 @@ def _ns_case_st(draw, solver, clause):
         if solver in ('pdhg', 'dr', 'admm'):
             mapping = 'quadf' if (nullspace or draw(st.booleans())) \
                 else 'datag'
+            if accel != 'none':
+                mapping = 'quadf' if accel == 'primal' else 'datag'
         if mapping == 'quadf':
             A, phi = None, {'kind': 'zero'}
         else:
             A = draw(_data_op_st(sd, conds))
             pk = PHI_KINDS if not zero_cert else ZC_PHI_KINDS
+            if accel == 'dual':
+                pk = ('l1', 'l1', 'l2', 'box', 'nonneg', 'zero')
             phi = draw(pb.func_on_class_st(pb.space_class(sd), pk,
                                            sepsum=False))
         if solver in ('pdhg', 'admm') and mapping == 'quadf' and not terms:
@@ -409,6 +428,8 @@ def _ns_case_st(draw, solver, clause):
         'theta': 1.0 if clause == 'progress' else
         draw(st.sampled_from([1.0, 0.5, 0.0])),
         'relax': draw(st.booleans()),
+        'accel': accel,
+        'gfrac': draw(st.sampled_from([0.3, 0.7, 1.0])),
     }
     return case
 
@@ -744,7 +765,8 @@ def _kaczmarz(c, strata):
                    callback=lambda v: seq.append(toflat(v, X)))
         dist = [wnorm(v - xt, dX) for v in [x0] + seq]
         _mono(dist, max(dist[0], 1e-300),
-              'C12|kaczmarz-distance|kaczmarz|' + _dom_kind(c['domain']),
+              'C12|kaczmarz-distance|kaczmarz|order={},{}'.format(
+                  'random' if rand else 'fixed', _dom_kind(c['domain'])),
               'distance to a solution ({} loop)'.format(loop))
     nr = [l.norm for l in lins if l.norm > 0]
     strata += ['kaczmarz', 'nops:{}'.format(len(lins)),
@@ -1097,10 +1119,28 @@ def _setup(solver, P, case):
         tau, sigma = s0 * ratio, s0 / ratio
         theta = float(st_['theta'])
         U.ystar, U.Y = ystar, L.op.range
+        akw = {}
+        accel = st_.get('accel', 'none')
+        if accel == 'primal':
+            if case['map'] != 'quadf':
+                raise HarnessError('gamma_primal needs the quadf mapping')
+            akw['gamma_primal'] = float(st_['gfrac']) * 1.0
+        elif accel == 'dual':
+            mods = [1.0]
+            for T in P.terms:
+                lam_ = float(T.fd.get('lam', 1.0))
+                if T.fd['kind'] == 'l2sq':
+                    mods.append(1.0 / (2 * lam_))
+                elif T.fd['kind'] == 'huber':
+                    mods.append(float(T.fd['gamma']) / lam_)
+                else:
+                    raise HarnessError('gamma_dual needs smooth terms')
+            akw['gamma_dual'] = float(st_['gfrac']) * min(mods)
         U.run = lambda x, n, cb, **kw: S.pdhg(
             x, f, g, L.op, int(n), tau=tau, sigma=sigma, theta=theta,
-            callback=cb, **kw)
-        U.region += ',theta={:g}'.format(theta)
+            callback=cb, **dict(akw, **kw))
+        U.region += ',theta={:g}'.format(theta) if accel == 'none' \
+            else ',accel=' + accel
         return U
     sigma = ratio
     tau = frac * sigma / nrm ** 2
@@ -1141,6 +1181,13 @@ def _cond_class(P, family):
     c = max(_speed_numbers(P, family))
     return 'lo' if c <= 4 * (1 + 1e-6) else \
         ('mid' if c <= 12 * (1 + 1e-6) else 'hi')
+
+
+def _calib_solver(desc):
+    """Row name of the calibration table (accelerated pdhg has rows of its
+    own: its O(1/N) phase differs from the plain iteration)."""
+    acc = desc['c']['steps'].get('accel', 'none')
+    return desc['solver'] if acc == 'none' else 'pdhg+' + acc
 
 
 def _iterate(U, P, x, K, target, solver, checkpoint=None):
@@ -1185,6 +1232,8 @@ def _nonsmooth(desc, strata):
     family = case['family']
     P = pb.build_nonsmooth(case['p'])
     U = _setup(solver, P, case)
+    if case['steps'].get('accel', 'none') != 'none':
+        strata.append('{}:pdhg+{}'.format(clause, case['steps']['accel']))
     strata += ['{}:{}'.format(clause, solver), 'family:' + family,
                'domain:' + _dom_kind(case['p']['domain']),
                'phi:' + P.phi_fd['kind']]
@@ -1245,7 +1294,7 @@ def _nonsmooth(desc, strata):
                                                       err0))
         return Outcome('ok', strata=strata + ['progress:stability-only'],
                        nontrivial=True)
-    K, rho = CALIB.get((solver, family, cc), CALIB_DEFAULT)
+    K, rho = CALIB.get((_calib_solver(desc), family, cc), CALIB_DEFAULT)
     target = rho * err0
     # One run, stopped at the first iterate within the target: the same
     # verdict as "run K, on a miss re-run with 4K" (the iteration does not
@@ -1397,6 +1446,8 @@ def run_case(desc):
 REQUIRED_STRATA = (
     ['fixed:' + s for s in NS_SOLVERS] + ['fixed-dual:dr'] +
     ['progress:' + s for s in NS_SOLVERS] +
+    ['fixed:pdhg+primal', 'fixed:pdhg+dual', 'progress:pdhg+primal',
+     'progress:pdhg+dual'] +
     ['cg', 'cgn', 'landweber', 'kaczmarz', 'kaczmarz:random',
      'kaczmarz:norms-differ-5x', 'steepest', 'power',
      'stepsize:pdhg', 'stepsize:dr', 'given:none', 'given:tau',
